@@ -19,6 +19,7 @@ import (
 	"github.com/oasisprotocol/curve25519-voi/internal/verif/ref"
 	"github.com/oasisprotocol/curve25519-voi/internal/verif/ref/refed"
 	ed "github.com/oasisprotocol/curve25519-voi/primitives/ed25519"
+	"github.com/oasisprotocol/curve25519-voi/primitives/ed25519/extra/cache"
 )
 
 func main() { mc.Main("C02", run) }
@@ -111,6 +112,61 @@ var presets = []presetT{
 
 var incompatible = &ed.VerifyOptions{AllowSmallOrderR: true, AllowNonCanonicalR: true, CofactorlessVerify: true}
 
+// ---------------------------------------------------------------------------
+// Argument immutability (T12): the library never writes to an *Options, a *VerifyOptions or an exported preset.
+
+var presetPtrs = [4]*ed.VerifyOptions{ed.VerifyOptionsDefault, ed.VerifyOptionsStdLib, ed.VerifyOptionsFIPS_186_5, ed.VerifyOptionsZIP_215}
+var presetNames = [4]string{"VerifyOptionsDefault", "VerifyOptionsStdLib", "VerifyOptionsFIPS_186_5", "VerifyOptionsZIP_215"}
+var presetSpec = [4]refed.Flags{refed.PresetDefault, refed.PresetStdLib, refed.PresetFIPS, refed.PresetZIP215}
+
+func voOf(fl refed.Flags) ed.VerifyOptions {
+	return ed.VerifyOptions{AllowSmallOrderA: fl.AllowSmallOrderA, AllowSmallOrderR: fl.AllowSmallOrderR, AllowNonCanonicalA: fl.AllowNonCanonicalA,
+		AllowNonCanonicalR: fl.AllowNonCanonicalR, CofactorlessVerify: fl.Cofactorless}
+}
+
+// presetsIntact compares the exported presets (pointer and contents) with the specification flag sets; a changed preset
+// is reported and put back, so that one write does not turn every later case into a failure.
+func presetsIntact(w *mc.W, after string) {
+	cur := [4]*ed.VerifyOptions{ed.VerifyOptionsDefault, ed.VerifyOptionsStdLib, ed.VerifyOptionsFIPS_186_5, ed.VerifyOptionsZIP_215}
+	for i := range cur {
+		if cur[i] != presetPtrs[i] {
+			w.Fail("VerifyOptions-preset/mutated", fmt.Sprintf("exported variable %s points to another object after %s", presetNames[i], after), nil)
+			continue
+		}
+		if want := voOf(presetSpec[i]); *cur[i] != want {
+			w.Fail("VerifyOptions-preset/mutated", fmt.Sprintf("exported preset %s is %+v after %s, it was %+v", presetNames[i], *cur[i], after, want), map[string]string{"preset": presetNames[i], "after": after})
+			*cur[i] = want
+		}
+	}
+}
+
+type optGuard struct {
+	o  *ed.Options
+	so ed.Options
+	sv ed.VerifyOptions
+}
+
+func guardOpts(o *ed.Options) optGuard {
+	g := optGuard{o: o, so: *o}
+	if o.Verify != nil {
+		g.sv = *o.Verify
+	}
+	return g
+}
+
+// check reports any write to the caller's Options / VerifyOptions (and to the presets) and undoes it.
+func (g optGuard) check(w *mc.W, after string) {
+	if *g.o != g.so {
+		w.Fail("Options/mutated", fmt.Sprintf("%s wrote to the caller's Options: before %+v, after %+v", after, g.so, *g.o), map[string]string{"after": after})
+		*g.o = g.so
+	}
+	if g.so.Verify != nil && *g.so.Verify != g.sv {
+		w.Fail("VerifyOptions/mutated", fmt.Sprintf("%s wrote to the caller's VerifyOptions: before %+v, after %+v", after, g.sv, *g.so.Verify), map[string]string{"after": after})
+		*g.so.Verify = g.sv
+	}
+	presetsIntact(w, after)
+}
+
 func callB(f func() bool) (ok, panicked bool) {
 	defer func() {
 		if r := recover(); r != nil {
@@ -183,6 +239,7 @@ func (h *harness) verifySuite(w *mc.W, what string, pub, m, sig []byte, hash cry
 	}
 	for _, p := range presets {
 		o := &ed.Options{Hash: hash, Context: ctx, Verify: p.vo}
+		og := guardOpts(o)
 		if ok, pan := callB(func() bool { return ed.VerifyWithOptions(pub, m, sig, o) }); !ok {
 			w.Fail("VerifyWithOptions/rejects-own-signature/"+p.name, desc(fmt.Sprintf("rejected (panic=%v) under preset %s", pan, p.name)), cas)
 		}
@@ -191,10 +248,30 @@ func (h *harness) verifySuite(w *mc.W, what string, pub, m, sig []byte, hash cry
 				w.Fail("VerifyExpandedWithOptions/rejects-own-signature/"+p.name, desc(fmt.Sprintf("rejected (panic=%v) under preset %s", pan, p.name)), cas)
 			}
 		}
+		og.check(w, "VerifyWithOptions / VerifyExpandedWithOptions")
 		w.EvalN("verify-own-signature/"+p.name, 2, true)
 	}
-	if ok, _ := callB(func() bool { return ed.VerifyWithOptions(pub, m, sig, &ed.Options{Hash: hash, Context: ctx}) }); !ok {
+	// documented default: Verify == nil in every twin (plain, expanded, batch)
+	no := &ed.Options{Hash: hash, Context: ctx}
+	ng := guardOpts(no)
+	if ok, _ := callB(func() bool { return ed.VerifyWithOptions(pub, m, sig, no) }); !ok {
 		w.Fail("VerifyWithOptions/rejects-own-signature/Verify=nil", desc("rejected with Verify=nil"), cas)
+	}
+	ng.check(w, "VerifyWithOptions(Verify=nil)")
+	if epk != nil {
+		if ok, _ := callB(func() bool { return ed.VerifyExpandedWithOptions(epk, m, sig, no) }); !ok {
+			w.Fail("VerifyExpandedWithOptions/rejects-own-signature/Verify=nil", desc("rejected with Verify=nil"), cas)
+		}
+		ng.check(w, "VerifyExpandedWithOptions(Verify=nil)")
+		bv := ed.NewBatchVerifier()
+		bv.AddWithOptions(pub, m, sig, no)
+		ng.check(w, "BatchVerifier.AddWithOptions(Verify=nil)")
+		bv.AddExpandedWithOptions(epk, m, sig, no)
+		ng.check(w, "BatchVerifier.AddExpandedWithOptions(Verify=nil)")
+		if all, each := bv.Verify(constReader(sig[0])); !all || len(each) != 2 || !each[0] || !each[1] {
+			w.Fail("BatchVerifier.Verify/rejects-own-signature/Verify=nil", desc(fmt.Sprintf("batch with Verify=nil: all=%v each=%v", all, each)), cas)
+		}
+		presetsIntact(w, "BatchVerifier.Verify")
 	}
 	if hash == 0 && ctx == "" {
 		if ok, _ := callB(func() bool { return ed.Verify(pub, m, sig) }); !ok {
@@ -214,8 +291,14 @@ func (h *harness) batchSuite(w *mc.W, what string, recs []sigRec, salt int) {
 			if mode == 1 {
 				bv.ForceNoPublicKeyExpansion()
 			}
-			for _, r := range recs {
-				bv.AddWithOptions(r.pub, r.m, r.sig, &ed.Options{Hash: r.hash, Context: r.ctx, Verify: p.vo})
+			for j, r := range recs {
+				bo := &ed.Options{Hash: r.hash, Context: r.ctx, Verify: p.vo}
+				if p.name == "Default" && j%2 == 1 {
+					bo.Verify = nil // the documented default, mixed with its explicit form
+				}
+				og := guardOpts(bo)
+				bv.AddWithOptions(r.pub, r.m, r.sig, bo)
+				og.check(w, "BatchVerifier.AddWithOptions")
 			}
 			rd := &streamReader{buf: mc.Bytes(h.c.Seed, "c02-batch-rand", salt*8+pi*2+mode, 64+16*len(recs))}
 			all, each := bv.Verify(rd)
@@ -270,6 +353,7 @@ func (h *harness) batchSuite(w *mc.W, what string, recs []sigRec, salt int) {
 			}
 			rd2 := &streamReader{buf: mc.Bytes(h.c.Seed, "c02-batch-rand2", salt*8+pi*2+mode, 64+16*len(recs))}
 			only := bv.VerifyBatchOnly(rd2)
+			presetsIntact(w, "BatchVerifier.Verify / VerifyBatchOnly")
 			// documented: a batch containing cofactor-less entries returns false from VerifyBatchOnly
 			if only != !p.fl.Cofactorless {
 				w.Fail("BatchVerifier.VerifyBatchOnly/"+p.name, fmt.Sprintf("%s: VerifyBatchOnly=%v on %d valid signatures under preset %s", what, only, len(recs), p.name),
@@ -369,6 +453,23 @@ func run(c *mc.Ctx) {
 				w.Fail("GenerateKey", fmt.Sprintf("reader %s: GenerateKey gives priv=%x err=%v, want %x", r.name, []byte(pk), err, []byte(want)), cas)
 			}
 		}
+		// memory handed out (T11): the public key returned by GenerateKey is not the tail of the private key
+		if pub, pk, err := ed.GenerateKey(&streamReader{buf: full}); err == nil && len(pub) == 32 && len(pk) == 64 {
+			pub[0] ^= 0xff
+			pub[31] ^= 0xff
+			if !bytes.Equal(pk, want) {
+				w.Fail("GenerateKey/public-key-aliases-private-key", "overwriting the returned public key changed the returned private key", cas)
+			}
+		}
+		// documented default (T12): a nil reader means crypto/rand - a valid, fresh key pair each time
+		if i < 4 {
+			w.Eval("GenerateKey/nil-reader", true)
+			pub1, pk1, err1 := ed.GenerateKey(nil)
+			_, pk2, err2 := ed.GenerateKey(nil)
+			if err1 != nil || err2 != nil || len(pk1) != 64 || len(pk2) != 64 || !bytes.Equal(pub1, pk1[32:]) || !bytes.Equal(pk1, stded.NewKeyFromSeed(pk1[:32])) || bytes.Equal(pk1, pk2) {
+				w.Fail("GenerateKey/nil-reader", fmt.Sprintf("GenerateKey(nil) gives priv=%x err=%v and priv=%x err=%v (must be two different RFC 8032 key pairs)", []byte(pk1), err1, []byte(pk2), err2), nil)
+			}
+		}
 		if i < 3 {
 			for _, n := range []int{0, 31, 33, 64} {
 				w.Eval("NewKeyFromSeed/bad-length", false)
@@ -434,7 +535,11 @@ func run(c *mc.Ctx) {
 					od := fmt.Sprintf("%s AddedRandomness=%v SelfVerify=%v Verify=%s", base, ar == 1, sv == 1, verifyNames[vi])
 					okOpts := valid && vo != incompatible
 					sign := func(rd io.Reader) ([]byte, error, bool) {
-						return callSign(func() ([]byte, error) { return priv.Sign(rd, m, o()) })
+						so := o()
+						og := guardOpts(so)
+						sig, err, pan := callSign(func() ([]byte, error) { return priv.Sign(rd, m, so) })
+						og.check(w, "PrivateKey.Sign("+od+")")
+						return sig, err, pan
 					}
 					if !okOpts {
 						// invalid combination: exactly an error, whatever the reader
@@ -644,15 +749,24 @@ func run(c *mc.Ctx) {
 		what := fmt.Sprintf("%s: seed=%x variant=%s ctxlen=%d msglen=%d SelfVerify=%v", class, seeds[ki], v.name, len(v.ctx), len(m), selfVerify)
 		cas := map[string]string{"seed": mc.Hex(seeds[ki]), "message": mc.Hex(m), "context": mc.Hex([]byte(v.ctx)), "hash": hashName(v.hash), "want": mc.Hex(want)}
 		w.Eval(class+"/sign", true)
-		sig, serr, pan := callSign(func() ([]byte, error) {
-			return priv.Sign(nil, m, &ed.Options{Hash: v.hash, Context: v.ctx, SelfVerify: selfVerify, Verify: presets[(len(m)+len(v.ctx))%4].vo})
-		})
+		so := &ed.Options{Hash: v.hash, Context: v.ctx, SelfVerify: selfVerify, Verify: presets[(len(m)+len(v.ctx))%4].vo}
+		if (len(m)+len(v.ctx))%5 == 4 {
+			so.Verify = nil
+		}
+		sg := guardOpts(so)
+		sig, serr, pan := callSign(func() ([]byte, error) { return priv.Sign(nil, m, so) })
+		sg.check(w, "PrivateKey.Sign")
 		if pan || serr != nil || !bytes.Equal(sig, want) {
 			w.Fail("PrivateKey.Sign/deterministic", fmt.Sprintf("%s: got sig=%x err=%v, RFC 8032 / crypto/ed25519 signature is %x", what, sig, serr, want), cas)
 		}
 		// the RFC signature must verify through every hashing path of the library
 		for _, p := range presets[:2] {
 			o := &ed.Options{Hash: v.hash, Context: v.ctx, Verify: p.vo}
+			if p.name == "Default" && len(m)%2 == 1 {
+				o.Verify = nil
+			}
+			vg := guardOpts(o)
+			defer vg.check(w, "VerifyWithOptions / VerifyExpandedWithOptions")
 			w.EvalN(class+"/verify", 2, true)
 			ok1, _ := callB(func() bool { return ed.VerifyWithOptions(pub, m, want, o) })
 			ok2 := false
@@ -758,6 +872,28 @@ func run(c *mc.Ctx) {
 			if pan || serr != nil || !bytes.Equal(sig, want) {
 				w.Fail("PrivateKey.Sign/deterministic", fmt.Sprintf("%s SelfVerify=%v: sig=%x err=%v, crypto/ed25519 on tight copies %x", what, sv, sig, serr, want), nil)
 			}
+		}
+		// memory handed out (T11): a returned signature is the caller's - a later Sign must not write into it, and writing
+		// into it must not influence a later Sign
+		{
+			o := &ed.Options{Hash: v.hash, Context: v.ctx}
+			s1, _, _ := callSign(func() ([]byte, error) { return priv.Sign(nil, m, o) })
+			other := append([]byte{}, tightM...)
+			if len(other) > 0 {
+				other[0] ^= 1
+			}
+			s2, _, _ := callSign(func() ([]byte, error) { return tightPriv0(priv).Sign(nil, other, o) })
+			if len(s1) == 64 && !bytes.Equal(s1, want) {
+				w.Fail("PrivateKey.Sign/result-overwritten", fmt.Sprintf("%s: the first signature changed to %x when another message was signed (was %x)", what, s1, want), nil)
+			}
+			for j := range s2 {
+				s2[j] = 0xff
+			}
+			s3, _, _ := callSign(func() ([]byte, error) { return priv.Sign(nil, m, o) })
+			if !bytes.Equal(s3, want) {
+				w.Fail("PrivateKey.Sign/result-aliases-state", fmt.Sprintf("%s: after the caller overwrote an earlier result, Sign gives %x want %x", what, s3, want), nil)
+			}
+			intact("PrivateKey.Sign")
 		}
 		// randomised: the same entropy with arena arguments and with tight copies
 		ent := stream(c.Seed, "c02-mem-entropy", i)
@@ -954,6 +1090,40 @@ func run(c *mc.Ctx) {
 		signAndCheck(w, "length-sweep", sc.ki, sc.v, m, i%3 == 0)
 	})
 
+	// ---- sub-space "cache-twin": RFC signatures of many keys through a cache.Verifier with a small LRU ----
+	// every key twice in a row (a miss that may evict, then a hit on the entry just inserted), more keys than the cache
+	// holds; the RFC signature must verify, a changed one must not, directly and through a batch filled via the cache.
+	c.Par("cache-twin", c.Pick(6, 24), func(w *mc.W, i int) {
+		cv := cache.NewVerifier(cache.NewLRUCache(1 + i%3))
+		v := []vr{{0, "", "pure"}, {0, "cache ctx", "ctx"}, {crypto.SHA512, "", "ph"}, {crypto.SHA512, "cache ctx", "ph+ctx"}}[i%4]
+		for step := 0; step < 32; step++ {
+			ki := ((step/2)*(1+i%2) + i) % len(seeds)
+			m := mc.Bytes(c.Seed, "c02-cache-msg", i*64+step, 64)
+			sig, err := stdKeys[ki].Sign(nil, m, &stded.Options{Hash: v.hash, Context: v.ctx})
+			if err != nil {
+				c.Broken("std-lib refused a valid signing request: " + err.Error())
+				return
+			}
+			pub := rkeys[ki].Pub
+			bad := append([]byte{}, sig...)
+			bad[(step*5)%64] ^= 1 << uint(step%8)
+			o := &ed.Options{Hash: v.hash, Context: v.ctx, Verify: verifyChoices[(step+i)%5]}
+			og := guardOpts(o)
+			w.EvalN("cache-twin/verify", 2, true)
+			ok1, _ := callB(func() bool { return cv.VerifyWithOptions(pub, m, sig, o) })
+			ok2, _ := callB(func() bool { return cv.VerifyWithOptions(pub, m, bad, o) })
+			bv := ed.NewBatchVerifier()
+			cv.AddWithOptions(bv, pub, m, sig, o)
+			cv.AddWithOptions(bv, pub, m, bad, o)
+			_, each := bv.Verify(constReader(byte(step)))
+			og.check(w, "cache.Verifier.VerifyWithOptions / AddWithOptions")
+			if !ok1 || ok2 || len(each) != 2 || !each[0] || each[1] {
+				w.Fail("cache.Verifier/disagrees", fmt.Sprintf("step %d, key %x (%s): RFC signature -> %v, changed signature -> %v, batch [RFC, changed] -> %v", step, pub, v.name, ok1, ok2, each),
+					map[string]string{"public_key": mc.Hex(pub), "message": mc.Hex(m), "signature": mc.Hex(sig)})
+			}
+		}
+	})
+
 	// ---- sub-space "mutations": a produced signature stops verifying after ANY change ----
 	type mcase struct {
 		seed      []byte
@@ -1125,6 +1295,39 @@ func run(c *mc.Ctx) {
 			n := sizes[i]
 			off := (i * 131) % (len(pool) - n + 1)
 			h.batchSuite(w, fmt.Sprintf("batch of %d RFC 8032 signatures", n), pool[off:off+n], 1000000+i)
+			// the same sizes with ONE invalid member (first / last position): the batch must fail and the per-entry
+			// answers must single out exactly that member, on both sides of every dispatch threshold (T14)
+			for _, pos := range []int{0, n - 1} {
+				for pi, p := range []presetT{presets[0], presets[3]} {
+					for mode := 0; mode < 2; mode++ {
+						bv := ed.NewBatchVerifier()
+						if mode == 1 {
+							bv.ForceNoPublicKeyExpansion()
+						}
+						for j, r := range pool[off : off+n] {
+							sig := r.sig
+							if j == pos {
+								sig = append([]byte{}, r.sig...)
+								sig[(i*7+pos)%64] ^= 1 << uint((i+pi)%8)
+							}
+							bv.AddWithOptions(r.pub, r.m, sig, &ed.Options{Hash: r.hash, Context: r.ctx, Verify: p.vo})
+						}
+						all, each := bv.Verify(&streamReader{buf: mc.Bytes(c.Seed, "c02-bigbatch-invalid", i*16+pi*4+mode*2+pos%2, 64)})
+						w.EvalN("bigbatch-one-invalid/"+p.name, int64(n), true)
+						bad := all || len(each) != n
+						for j, e := range each {
+							bad = bad || e != (j != pos)
+						}
+						if bad {
+							w.Fail("BatchVerifier.Verify/one-invalid-member/"+p.name, fmt.Sprintf("batch of %d with a changed signature at position %d (preset %s, mode %d): all=%v, wrong per-entry answers: %v", n, pos, p.name, mode, all, each), nil)
+						}
+						if only := bv.VerifyBatchOnly(&streamReader{buf: mc.Bytes(c.Seed, "c02-bigbatch-invalid2", i*16+pi*4+mode*2+pos%2, 64)}); only {
+							w.Fail("BatchVerifier.VerifyBatchOnly/one-invalid-member/"+p.name, fmt.Sprintf("batch of %d with a changed signature at position %d accepted by VerifyBatchOnly", n, pos), nil)
+						}
+						presetsIntact(w, "BatchVerifier.Verify")
+					}
+				}
+			}
 		})
 	}
 
@@ -1139,6 +1342,7 @@ func run(c *mc.Ctx) {
 	c.Require("invalid-options/error", 50)
 	c.Require("selfverify/corrupted-public-half", 50)
 	c.Require("collision/sign", 100)
+	c.Require("cache-twin/verify", 100)
 	c.Require("caller-memory/sign", 40)
 	c.Require("arg-lengths/private-key", 500)
 	c.Require("randomised/retry-after-failure", 50)
@@ -1148,6 +1352,8 @@ func run(c *mc.Ctx) {
 	c.Require("randomised/streamB", 50)
 	c.Require("randomised/streamA-one-byte-reads", 50)
 }
+
+func tightPriv0(p ed.PrivateKey) ed.PrivateKey { return ed.PrivateKey(append([]byte{}, p...)) }
 
 func hashName(h crypto.Hash) string {
 	if h == 0 {
